@@ -6,20 +6,23 @@ from vlib import core
 LEVEL = "proof"
 MANIFEST = dict(
     cat="proof",
-    tech="Coq proofs over Q about the specification (k-th largest tent value, PL functions, exact integrals) and about transcribed "
-         "algorithm models + differential correspondence of the C++ with the extracted models on dyadic diagrams (exact doubles)",
-    text="Coq theorems, unbounded in the diagram, the level and the evaluation point: lambda_k is non-negative, antitone in k and "
-         "invariant under permutation of the diagram; a PL function is determined by its values at its breakpoints; sums, differences and "
-         "scalar multiples on common breakpoints are the pointwise operations; the sup, L1 and L2^2 functionals and the inner product on "
-         "sampled PL functions are symmetric / zero on equal arguments / satisfy the triangle inequality (sup, L1) / bilinear; the "
-         "unrepaired grid evaluation is refuted by a concrete witness.  The characteristic-point sweep, the merge of breakpoint lists, "
-         "abs, the integrals, distances and inner product of Persistence_landscape.h and the grid construction/evaluation of "
-         "Persistence_landscape_on_grid.h are transcribed to Gallina, extracted, and compared with the C++ on every breakpoint, midpoint and "
-         "far-outside point for all levels, together with the specification evaluated on the same points.",
+    tech="Coq proofs over Q: the transcribed landscape construction and evaluation refine the definition (k-th largest tent value); "
+         "normed-vector-space laws of the exact functionals; differential correspondence of the C++ with the extracted models on dyadic diagrams",
+    text="Coq theorems, unbounded in the diagram, the level and the evaluation point.  C18_landscape_equals_definition: for every diagram "
+         "(birth <= death, coordinates inside the sentinels, births not closer than the 5e-6 tolerance unless equal) the transcription of "
+         "construct_persistence_landscape_from_barcode (sort, characteristic-point sweep with all tie branches, std::unique) evaluated by the "
+         "transcription of compute_value_at_a_given_point (bisection) yields lambda_k(t) for all k, t.  lambda_k is non-negative, antitone in k, "
+         "permutation invariant; a PL function is determined by its values at its breakpoints; sums/differences on common breakpoints, the "
+         "transcribed scalar multiple and the transcribed abs() are pointwise; sup, L1 and L2 functionals: symmetric, zero on equal arguments, "
+         "triangle inequality (sup, L1, L2 via Cauchy-Schwarz); inner product symmetric and bilinear; the unrepaired grid evaluation is refuted "
+         "and the repaired one returns the stored value at every grid point.  The transcription is tied to the C++ by running both on identical "
+         "inputs (random + exhaustive small lattices + AddressSanitizer variant): breakpoints, values at every breakpoint/midpoint/outside for all "
+         "levels, operations, integrals, distances, inner products, grid form at and between grid points.",
     note="Trusted: Coq kernel, extraction + OCaml driver, the hand transcription (validated by the differential run), g++/libm pow. "
-         "Not proved (kept as *_full definitions, compared per input): the sweep computes lambda_k for every diagram; the merge of "
-         "different breakpoint lists is pointwise; triangle inequality for L2.  L2 distances (pow(.,1/2)) and inner products off the "
-         "3-divisible lattice are the only float comparisons (relative 2^-40 / absolute 1e-7).",
+         "Not proved (kept as *_full definitions, compared per input): the merge of different breakpoint lists is pointwise; the algorithmic "
+         "distances equal the spec integrals; grid construction = lambda at grid points.  The closed forms seg_abs/seg_sq/seg_prod are taken as the "
+         "integrals (no real analysis in the development).  L2 distances (pow(.,1/2)) and inner products off the 3-divisible lattice are the only "
+         "float comparisons (relative 2^-40 / absolute 1e-7).",
     ref="design/C18.md")
 CORRESPONDENCE = "coq/C18_Model.v (extracted: ocaml/c18_oracle.ml) vs harness/c18_drv.cpp on identical input lines"
 TRUSTED = [
